@@ -1309,6 +1309,8 @@ impl<D: DependencyProvider, RT: AsyncRuntime> Solver<D, RT> {
                 &mut seen,
             );
 
+            #[cfg(feature = "verif-hooks")]
+            verif::blame_visit(why);
             self.state.clauses.kinds[why.to_usize()].visit_literals(
                 &self.state.learnt_clauses,
                 &self.state.requirement_to_sorted_candidates,
